@@ -75,8 +75,31 @@ func bldDHCP4(rt *rapid.T) *bld {
 		p.set(i, len(v))
 	}
 	opt(53, []byte{byte(rapid.SampledFrom([]int{1, 1, 3, 3, 3, 7, 4, 8, 2, 5, 0, 99}).Draw(rt, "msgType"))})
+	d := dictFor("dhcp", "ztp")
 	for n := rapid.IntRange(0, 6).Draw(rt, "nopts"); n > 0; n-- {
-		switch c := rapid.SampledFrom([]int{50, 54, 12, 61, 55, 82, 82, 82, 43, 224, 57, 0, 60}).Draw(rt, "opt"); c {
+		switch c := dictType(rt, d, "opt", 50, 54, 12, 61, 55, 82, 82, 82, 43, 43, 124, 125, 125, 224, 57, 0, 60); c {
+		case 43: // vendor-specific information: sub-options (code, length, data)
+			p.u8(43)
+			i := p.len8()
+			start := len(p.b)
+			subTLVs(rt, p, d, 1, 1, false, "o43")
+			p.set(i, len(p.b)-start)
+		case 124, 125: // V-I vendor class / vendor-specific: enterprise number, data-len, then (125) sub-options
+			p.u8(c)
+			i := p.len8()
+			start := len(p.b)
+			for k := 1 + uni(rt, 2, "nvi"); k > 0; k-- {
+				p.raw(be32(dictInt(rt, d, 32, "enterprise"))...)
+				j := p.len8()
+				s2 := len(p.b)
+				if c == 125 {
+					subTLVs(rt, p, d, 1, 1, false, "o125")
+				} else {
+					p.raw(dictBytes(rt, d, 16, "vclass")...)
+				}
+				p.set(j, len(p.b)-s2)
+			}
+			p.set(i, len(p.b)-start)
 		case 50, 54:
 			opt(c, ip("optIP"))
 		case 12, 60:
@@ -160,6 +183,32 @@ func init() {
 	// [2..3] describe a generated history (d4Shape), rest = raw UDP payload.
 	register(&target{
 		name: "dhcp4-handler", nsel: d4Sel,
+		dictSeeds: func() [][]byte {
+			// every integer literal of the packages (and the boundary values) as enterprise number of option 125 / as
+			// sub-option code of options 43 and 82, x hostile inner lists, in DISCOVER and REQUEST of a bound client
+			var o [][]byte
+			seen := map[uint64]bool{}
+			for _, v := range append(dictFor("dhcp", "ztp").ints(32), boundaries...) {
+				if seen[v] {
+					continue
+				}
+				seen[v] = true
+				for _, sh := range innerShapes(1, 1, false) {
+					o125 := append(append([]byte{125, byte(5 + len(sh))}, be32(v)...), byte(len(sh)))
+					o125 = append(o125, sh...)
+					inner := append([]byte{byte(v), byte(len(sh))}, sh...)
+					o43 := append([]byte{43, byte(len(inner))}, inner...)
+					o82 := append([]byte{82, byte(len(inner))}, inner...)
+					for _, typ := range []byte{1, 3} {
+						o = append(o, withSel(mkDHCP4(typ, macA, relayGi, o125), 1, 0, 0, 0))
+						if v < 256 {
+							o = append(o, withSel(mkDHCP4(typ, macA, relayGi, o43, o82), 2, 0, 0, 0))
+						}
+					}
+				}
+			}
+			return o
+		},
 		run: func(data []byte, c *caseInfo) {
 			sel, raw := split(data, d4Sel)
 			var s *dhcp.Server
